@@ -38,7 +38,9 @@ def make_cases(tier, rng):
     # a listener the host reserved and never accepts on, dialled once by the plugin (multiplexed: the knock is acknowledged
     # and its token is never taken); closed by the application after the Kill
     for p_ in (["grpcmux"] if tier == "quick" else ["grpcmux", "grpc", "grpcmux"]):
-        cases.append({"name": "l%d" % len(cases), "proto": p_, "tls": "", "launch": rng.choice(["cmd", "runner"]), "ops": ["raw_accept_unserved"] + ([rng.choice(OPS)] if tier != "quick" else [])})
+        cases.append({"name": "l%d" % len(cases), "proto": p_, "tls": "", "launch": rng.choice(["cmd", "runner"]), "ops": ["raw_accept_unserved"] + ([rng.choice([o for o in OPS if o != "broker_p2h" or p_ != "grpcmux"])] if tier != "quick" else [])})
+        # (no plugin-to-host establishment after it under multiplexing: the unanswered dial's yamux stream sits at the head of the
+        # session's single accept queue and the next host-side listener would take it -- outside C08's preconditions, DESIGN section 7)
         if p_ == "grpcmux":
             cases.append({"name": "l%d" % len(cases), "proto": p_, "tls": "", "launch": "cmd", "ops": ["raw_accept_unserved_twice"]})
     # the plugin is ended by another client (reattached), this one sees it exit and is killed afterwards
